@@ -136,10 +136,15 @@ class C20(Prop):
     rule = ("random grids: CartGrid / TensorGrid in 1-3-D, StructuredTriangleGrid, "
             "StructuredTetrahedralGrid; dyadic node perturbations (interior / all nodes; 3-D: "
             "tetrahedral grids only); 2-D stream with reversed faces (fallback + plane fitting); "
-            "rotation from an integer quaternion in [-4,4]^4 (incl. identity and axis-aligned quarter "
-            "turns), translation with small rational components (incl. zero); non-trivial = "
+            "exact rational rotation from an integer quaternion: entries in [-4,4] (incl. identity and "
+            "axis-aligned quarter turns), SMALL angles 1e-6..1e-2 rad about arbitrary axes (N, a, b, c "
+            "with N up to 4e6), nearly half turns (1, N a, N b, N c); translation with small rational "
+            "components (incl. zero) or LARGE exact ones (1e3..1e6 in one or all components); "
+            "comparisons relative 1e-9 plus a slack 2^-40 * max|moved coordinate| * (1 + max|original "
+            "coordinate|)^2 for the precision of the float input; non-trivial = "
             "rotation is not the identity; distinct by (case, output)")
-    trusted = ["float -> exact rational conversion; band 1e-9*(1+|x|) evaluated inside Coq",
+    trusted = ["float -> exact rational conversion; band 1e-9*(1+|x|) + 2^-40*max|moved coordinate|*"
+               "(1+max|original coordinate|)^2 evaluated inside Coq",
                "instance-independence of the polymorphic formula definitions (proved for Leibniz "
                "rings, executed at Q)"]
     assumptions = ["proper rotations only (det = +1)"]
@@ -194,19 +199,42 @@ class C20(Prop):
             case["swap_faces"] = ([rng.randint(0, 10 ** 6) for _ in range(rng.randint(1, 2))]
                                   if (nd == 2 and rng.random() < 0.25) else [])
             rq = rng.random()
-            if rq < 0.08:
+            if rq < 0.06:
                 q = [1, 0, 0, 0]
-            elif rq < 0.2:
+            elif rq < 0.16:
                 q = rng.choice([[1, 1, 0, 0], [1, 0, 1, 0], [1, 0, 0, 1], [0, 1, 0, 0], [0, 0, 1, 1],
                                 [1, 1, 1, 1], [1, -1, 0, 0], [0, 1, 1, 0]])
+            elif rq < 0.40:
+                # SMALL angles (about 2|v|/N rad, 1e-6 ... 1e-2) about an arbitrary axis
+                v = [0, 0, 0]
+                while not any(v):
+                    v = [rng.randint(-3, 3) for _ in range(3)]
+                q = [rng.choice([200, 500, 2000, 10 ** 4, 10 ** 5, 10 ** 6, 4 * 10 ** 6])] + v
+            elif rq < 0.52:
+                # nearly a half turn: angle pi - 2e/(N|v|) about an arbitrary axis
+                v = [0, 0, 0]
+                while not any(v):
+                    v = [rng.randint(-3, 3) for _ in range(3)]
+                N = rng.choice([100, 10 ** 3, 10 ** 5, 10 ** 6])
+                q = [rng.choice([1, -1, 2]), N * v[0], N * v[1], N * v[2]]
             else:
                 q = [0, 0, 0, 0]
                 while not any(q):
                     q = [rng.randint(-4, 4) for _ in range(4)]
             case["quat"] = q
             den = rng.choice([1, 2, 3, 4, 5, 8])
-            case["shift"] = ([[0, 1]] * 3 if rng.random() < 0.15
-                             else [[rng.randint(-12, 12), den] for _ in range(3)])
+            rt = rng.random()
+            if rt < 0.12:
+                case["shift"] = [[0, 1]] * 3
+            elif rt < 0.45:
+                # LARGE translations, exact: 1e3 ... 1e6 in one or all components
+                big = rng.choice([10 ** 3, 10 ** 4, 10 ** 5, 10 ** 6])
+                sh = [[rng.randint(-12, 12), den] for _ in range(3)]
+                for k in (range(3) if rng.random() < 0.5 else [rng.randrange(3)]):
+                    sh[k] = [rng.choice([-1, 1]) * big * den + sh[k][0], den]
+                case["shift"] = sh
+            else:
+                case["shift"] = [[rng.randint(-12, 12), den] for _ in range(3)]
             yield case
 
     # ------------------------------------------------------------------ implementation
@@ -239,7 +267,10 @@ class C20(Prop):
         R = rotation(case["quat"])
         t = [F(a, b) for a, b in case["shift"]]
         G, G2 = res["G"], res["G2"]
-        close = lambda a, b: abs(F(a) - F(b)) <= TOL * (1 + abs(F(b)))
+        # absolute slack for the precision of the input coordinates (same as Model.C20.slack)
+        mx = lambda pts: max([abs(F(c)) for p in pts for c in p] + [F(0)])
+        sl = F(1, 2 ** 40) * mx(res["N2"]) * (1 + mx(res["N"])) ** 2
+        close = lambda a, b: abs(F(a) - F(b)) <= TOL * (1 + abs(F(b))) + sl
         for name, what in (("area", "face area"), ("vol", "cell volume")):
             for i, (a, b) in enumerate(zip(G[name], G2[name])):
                 if not close(b, a):
